@@ -213,8 +213,10 @@ def inversion_interferometer_from(
 
     try:
         from autoarray.inversion.inversion import inversion_util_secret
+
+        w_tilde_available = True
     except ImportError:
-        settings.use_w_tilde = False
+        w_tilde_available = False
 
     if any(
         isinstance(linear_obj, AbstractLinearObjFuncList)
@@ -222,7 +224,7 @@ def inversion_interferometer_from(
     ):
         use_w_tilde = False
     else:
-        use_w_tilde = settings.use_w_tilde
+        use_w_tilde = settings.use_w_tilde and w_tilde_available
 
     if not settings.use_linear_operators:
         if use_w_tilde:
